@@ -33,10 +33,26 @@ Theorem c19_lookup : forall openat auto path ae, validate_path path = None ->
        match openat (path ++ DOT_GZ) with
        | OOpened ino false => (GNode ino true auto, [path ++ DOT_GZ])
        | OOpened _ true | ONotFound => plain [path ++ DOT_GZ]
-       | OError k => (GError k, [path ++ DOT_GZ])
+       | OError k => if k =? K_NAMETOOLONG then plain [path ++ DOT_GZ] else (GError k, [path ++ DOT_GZ])
        end
      else plain []).
 Proof. exact get_accepted. Qed.
+
+(* "opens exactly the file that path names (or fails the way opening that file fails)": when the path
+   itself opens, get fails only if the sibling it had to substitute is there to be opened and fails -- never
+   because the sibling is absent or cannot exist (a name made too long by the ".gz" suffix) *)
+Theorem c19_fails_only_for_sibling : forall openat auto path ae k calls ino d, validate_path path = None ->
+  openat path = OOpened ino d -> fsdir_get openat auto path ae = Ok (GError k, calls) ->
+  auto = true /\ should_gzip ae = Ok true /\ openat (path ++ DOT_GZ) = OError k /\ k <> K_NAMETOOLONG.
+Proof. exact get_fails_only_for_sibling. Qed.
+
+(* The pinned tree violated this: a file whose name is within NAME_MAX but becomes too long with ".gz"
+   appended could not be fetched by a client that prefers gzip (F11). *)
+Example c19_legacy_refuted :
+  let openat := fun p : bytes => if lenN p <=? 3 then OOpened 7 false else OError K_NAMETOOLONG in
+  fsdir_get_legacy openat true (bs "abc") (Some (bs "gzip")) = Ok (GError K_NAMETOOLONG, [bs "abc.gz"]) /\
+  fsdir_get openat true (bs "abc") (Some (bs "gzip")) = Ok (GNode 7 false true, [bs "abc.gz"; bs "abc"]).
+Proof. vm_compute. split; reflexivity. Qed.
 
 (* gzip is reported exactly when the .gz branch was taken, which needs auto_gzip, a client that
    prefers gzip, and a .gz sibling that is not a directory *)
@@ -65,6 +81,7 @@ Print Assumptions c19_validate.
 Print Assumptions c19_validate_errors.
 Print Assumptions c19_rejected_opens_nothing.
 Print Assumptions c19_lookup.
+Print Assumptions c19_fails_only_for_sibling.
 Print Assumptions c19_encoding.
 Print Assumptions c19_encoding_headers.
 Print Assumptions c19_contained.
